@@ -20,10 +20,20 @@ Strings == UNION {M1(k, IF k \in FullKinds THEN Tokens ELSE SmallAlphabet) : k \
 DeepAlphabet == {"ro.", "imm.", "X", "NL", "COLON"}
 DeepStrings == UNION {M1(k, IF k \in Kinds2 THEN SmallAlphabet ELSE DeepAlphabet) : k \in Kinds}
 
+\* composite strings: a kind's prefix, optional junk, then a complete well-formed cap (doubled
+\* prefix, cap embedded after junk), and two complete caps glued together.  They lie outside the
+\* grammar as a whole although a suffix (or prefix) of them is a well-formed cap: a parser whose
+\* pattern is not anchored at both ends mis-reads them.
+GlueKinds == {"CHK", "CHK-Verifier", "LIT", "SSK", "SSK-RO", "SSK-Verifier", "MDMF", "DIR2", "DIR2-CHK", "DIR2-RO"} \cap Kinds
+Junks == {<<>>, <<"X">>, <<"COLON">>, <<"X", "COLON">>}
+Glued == {<<Skeleton(k)[1]>> \o j \o Skeleton(k) : k \in GlueKinds, j \in Junks}
+           \cup {Skeleton(k) \o j \o Skeleton(k2) : k \in GlueKinds, k2 \in GlueKinds, j \in {<<>>, <<"COLON">>}}
+           \cup {<<"ro.">> \o <<Skeleton(k)[1]>> \o <<"X">> \o Skeleton(k) : k \in GlueKinds}
+
 Case(ts, deep) ==
   LET cs == Expand(ts)  r == Parse(cs, deep) IN
   [toks |-> ts, deep |-> deep, kind |-> r.kind, err |-> r.err, why |-> r.why, lo |-> r.lo, hi |-> r.hi]
-Cases == {Case(ts, FALSE) : ts \in Strings} \cup {Case(ts, TRUE) : ts \in DeepStrings}
+Cases == {Case(ts, FALSE) : ts \in Strings \cup Glued} \cup {Case(ts, TRUE) : ts \in DeepStrings}
 
 ASSUME JsonSerialize(IOEnv.TOK_FILE, TokenTable)
 ASSUME ndJsonSerialize(IOEnv.OUT_FILE, SetToSeq(Cases))
